@@ -15,7 +15,7 @@ LPool == { <<97>>, <<97, DOT, 98>>, <<DQ, 97, SP, 98, DQ>>, <<DQ, 97, AT, 98, DQ
            <<97, HASH>>, <<DQ, BS, 1, DQ>>, <<DQ, 1, DQ>>, <<97, AT, 98>>, <<AT>>, <<>>,
            \* quoted specials: a colon, brackets, dots or '@' in the local part must not influence how the domain is judged
            <<DQ, COLON, DQ>>, <<DQ, 97, COLON, 98, DQ>>, <<DQ, LBR, DQ>>, <<DQ, RBR, DQ>>, <<DQ, 97, DOT, 98, DQ>>, <<DQ, LBR, 49, RBR, DQ>>,
-           <<97, DOT, DQ, 98, DQ>>, <<49>>, <<49, DOT, 50>> }
+           <<97, DOT, DQ, 98, DQ>>, <<49>>, <<49, DOT, 50>>, <<97, 1, 98>>, <<97, DEL>>, <<97, HASH, 123>>, <<DQ, 97, HT, 98, DQ>> }
 DPool == { xcom, <<88, DOT, 67, 79, 77>>, xcom \o <<DOT>>, xcom \o <<DOT, DOT>>, S_localhost, S_example \o <<DOT>> \o S_org,
            <<97, DOT>> \o S_test, <<120, DOT, 122, 122>>, <<98>>, <<49, 50, 51, DOT, 52, 53>>, <<97, HYPHEN, DOT, 99, 111, 109>>,
            <<LBR, 49, DOT, 50, DOT, 51, DOT, 52, RBR>>, <<LBR>> \o TagIPv6 \o <<COLON, COLON, 49, 49, RBR>>,
